@@ -20,6 +20,9 @@ CHECKS['C05'] = ('runtime oracle: bit-by-bit GLSL reference models; complete enu
 CHECKS['C01'] = ('runtime differential oracle: vector overload vs scalar overload of the same glm function per component, over lattice^n and random inputs, all lengths/qualifiers',
          'About 740 (function or operator, overload shape, element type) operations, each instantiated for vector lengths 1-4 and the qualifiers, are evaluated on special-value lattice tuples and random tuples; every component is compared with what the scalar overload returns (bitwise, or within the derived rounding bound for mix/smoothstep/mod/fma, or 2^-8 for lowp inversesqrt), and scalar/vec1 arguments are compared with the broadcast vector.',
          TRUST + ' The scalar overload is the reference, as the statement says; its own correctness is C11/C05/C18 territory.', 'DESIGN.md 7/C01')
+CHECKS['C12'] = ('runtime oracle: long double / __float128 evaluation of the defining formulas with derived k*u*S bounds, exact branch decisions outside the rounding band; pure, clang, -O0 and SIMD (aligned) builds',
+         'dot/length/distance/cross/normalize/reflect/refract/faceforward (vec1-4 and scalar overloads, float and double) and the gtx norm/projection/perpendicular/orthonormalize/angle/closest-point helpers are evaluated on random finite vectors plus orthogonal/parallel/antiparallel/near-degenerate configurations and straddlers of refract k=0 and faceforward dot=0; each result is compared with a higher-precision evaluation of the stated identity. The evidence records max error/bound per operation.',
+         TRUST, 'DESIGN.md 7/C12')
 REASONS = {}
 
 checks = []
